@@ -347,18 +347,20 @@ def gen_stab(tier, rng):
         roots.append(o)
     rng.shuffle(roots)
     yield case(roots, rng.choice(GAINS), ["mult-random", "mult=%d" % mult, cls(roots)])
-  n = 250 if tier == "quick" else 4000
+  n = 250 if tier == "quick" else 2000
   maxdeg = 6 if tier == "quick" else 10
   for _ in range(n):
     kind = rng.random()
     roots, deg = [], 0
-    target = rng.randrange(2, maxdeg + 1)
+    target = rng.randrange(2, min(maxdeg, 8) + 1)
+    if maxdeg > 8 and rng.random() < 0.15:     # degrees 9 and 10 are costly to evaluate exactly: a thinner stream
+      target = rng.randrange(9, maxdeg + 1)
     while deg < target:
       pool = ROOTS_IN
       if kind >= 0.45 and rng.random() < 0.3:
         pool = ROOTS_ON if kind < 0.7 else ROOTS_OUT
       rt = rng.choice(pool)
-      if rng.random() < 0.25:   # a fresh rational root / pair, not from the pools
+      if target <= 6 and rng.random() < 0.25:   # a fresh rational root / pair (kept to degree <= 6: number size)
         x, y = F(rng.randrange(-12, 13), rng.choice([5, 7, 8, 10])), F(rng.randrange(0, 11), rng.choice([5, 7, 8, 10]))
         rt = (x, y if rng.random() < 0.6 else F(0))
       d = 1 if rt[1] == 0 else 2
